@@ -1,4 +1,5 @@
 """C15 - timers count, fire and reload exactly per mode; fast-forward is exact (structural parts)."""
+import re
 from .. import mmio
 from ..cases import CaseWalker, NZ
 from ..astq import walk, field_path, const_value
@@ -96,17 +97,19 @@ def run(ctx):
                         ctx.report(T1, fns['Skip'], fns['Skip']['body'], 'Skip ' + inst, 'Skip does %s, the mode table says %s' % (skip_nz, want_skip))
                 else:
                     # reload arms: counter = reset - (ticks - 1) with reset the same reload value as Tick / GetMaxSkip
-                    r = Renderer(fns['Skip'], inline_locals=False)
+                    from .. import summ, boolform
+                    SMs = summ.summary(ctx, fns['Skip'], asserts='ignore')
+                    A_, N_ = boolform.A, boolform.neg
+                    CM = 'f:%s::count_mode' % T
+                    assume = boolform.all_of(N_(A_('f:%s::pause' % T)), N_(A_('f:%s::counter' % T)), A_('$0'),
+                                             A_('(== %s %s)' % tuple(sorted([CM, '%s::CountMode::%s' % (T, mname)]))))
                     resets = set()
-                    for n in walk(fns['Skip']['body']):
-                        if n.get('k') == 'assign' and r.r(n['lhs']).startswith('l:reset'):
-                            active = True
-                            for c, pol, s_ in guards_at(fns['Skip']['body'], n):
-                                tv = cw.truth(c, case)
-                                if tv is not None and tv != pol:
-                                    active = False
-                            if active:
-                                resets.add(r.r(n['rhs']))
+                    for cond_, seq_, p_ in SMs.effect_sequences(lambda e: e[0] == 'write' and e[1] == 'f:%s::counter' % T):
+                        if not boolform.satisfiable(boolform.all_of(cond_, assume)):
+                            continue
+                        for e_ in seq_:
+                            m_ = re.match(r'^\(- (.+) \(- \$0 1\)\)$', e_[3])
+                            resets.add(m_.group(1) if m_ and e_[2] == '=' else '%s %s' % (e_[2], e_[3]))
                     if resets != {want_h[0]}:
                         ctx.report(T1, fns['Skip'], fns['Skip']['body'], 'Skip ' + inst, 'Skip reloads from %s, Tick/GetMaxSkip use %s' % (sorted(resets), want_h[0]))
                     for e in skip_nz:
